@@ -1383,7 +1383,8 @@ pub fn run(ctx: &Ctx) -> Outcome {
         let next: Mutex<Vec<(StateSpec, Vec<String>)>> = Mutex::new(vec![]);
         let before = chains_run.load(Ordering::Relaxed);
         par_for(frontier.len(), |i| {
-            if ctx.over_budget() {
+            // this check may use 1.3 x the common budget (52 s in the quick tier): level 2 needs about 40 s on 16 idle cores
+            if ctx.elapsed() > ctx.tier.budget_s() * 1.3 {
                 cut.store(true, Ordering::Relaxed);
                 return;
             }
@@ -1392,14 +1393,17 @@ pub fn run(ctx: &Ctx) -> Outcome {
                 chains_abandoned.fetch_add(1, Ordering::Relaxed);
                 return;
             };
+            let mut local_classes: BTreeMap<String, u64> = BTreeMap::new();
+            let mut local_obs = vec![];
+            let mut local_next = vec![];
             for l in &labels {
                 let mut last_class = String::new();
                 if let Some(r) = run_chain(s, prefix, l, false) {
                     last_class = r.class.clone();
                     chains_run.fetch_add(1, Ordering::Relaxed);
                     transitions.fetch_add(r.transitions, Ordering::Relaxed);
-                    *classes.lock().unwrap().entry(r.class.clone()).or_insert(0) += 1;
-                    obs.lock().unwrap().insert((r.obs, r.class.clone()));
+                    *local_classes.entry(r.class.clone()).or_insert(0) += 1;
+                    local_obs.push((r.obs, r.class.clone()));
                     if !r.vios.is_empty() {
                         let mut vs = vios.lock().unwrap();
                         for (rule, sig, what) in r.vios {
@@ -1410,8 +1414,18 @@ pub fn run(ctx: &Ctx) -> Outcome {
                 if level < max_prefix && (last_class == "ok" || last_class == "stream") {
                     let mut p2 = prefix.clone();
                     p2.push(l.clone());
-                    next.lock().unwrap().push((s.clone(), p2));
+                    local_next.push((s.clone(), p2));
                 }
+            }
+            {
+                let mut c = classes.lock().unwrap();
+                for (k, n) in local_classes {
+                    *c.entry(k).or_insert(0) += n;
+                }
+            }
+            obs.lock().unwrap().extend(local_obs);
+            if !local_next.is_empty() {
+                next.lock().unwrap().extend(local_next);
             }
         });
         chain_levels.push(json!({"prefix_events": level, "chains": chains_run.load(Ordering::Relaxed) - before, "complete": !cut.load(Ordering::Relaxed)}));
